@@ -348,7 +348,11 @@ func c11One(c *Ctx, rng *lab.RNG, cs c11Case) {
 	}
 	check := func(where string) bool {
 		want := nonEmpty(ref)
-		o, it, ch := readAll()
+		var o, it, ch [][]byte
+		if pp := lab.Try(func() { o, it, ch = readAll() }); pp != nil {
+			fail("panic-reading-slices/"+pp.Short(), fmt.Sprintf("%s: reading the slices back panicked: %s", where, pp.Msg))
+			return false
+		}
 		if i := equalLists(nonEmpty(o), want); i >= 0 {
 			fail("slices-offsets", fmt.Sprintf("%s: Slice over SliceOffsets differs from the slices written at index %d (%d vs %d non-empty)", where, i, len(nonEmpty(o)), len(want)))
 			return false
